@@ -97,7 +97,7 @@ static void scen_run(void)
                         }
                 /* a '?' as first argument byte asks for TEST when the selected command can answer it (test handler
                  * or variables) and is not implicit-write; anything after it is a syntax error (nothing runs) */
-                if (first == '?' && sel >= 0 && ((S.hm[sel] & H_TEST) || W.cmd[sel].var_num > 0) && !(S.fl[sel] & F_IMPLICIT)) {
+                if (first == '?' && sel >= 0 && ((S.hm[sel] & H_TEST) || G_cmd[sel].var_num > 0) && !(S.fl[sel] & F_IMPLICIT)) {
                         kind = CAT_CMD_TYPE_TEST;
                         has_q = 1;
                 }
@@ -134,13 +134,13 @@ static void scen_run(void)
                 if (!expect)
                         CHK(C09, W.units == 1 && W.u_len == 5 && G_pay[0] == 'E', "run form without handler (or test-only) is answered with ERROR");
         }
-        if (sel >= 0 && kind == CAT_CMD_TYPE_WRITE && W.cmd[sel].var_num == 0) {
+        if (sel >= 0 && kind == CAT_CMD_TYPE_WRITE && G_cmd[sel].var_num == 0) {
                 int expect = !(S.fl[sel] & F_ONLY_TEST) && (S.hm[sel] & H_WRITE);
                 CHK(C02, (W.hl_n == 1) == (expect != 0), "write handler of a variable-less command invoked iff present and not test-only");
                 if (!expect)
                         CHK(C09, W.units == 1 && W.u_len == 5 && G_pay[0] == 'E', "write form with neither handler nor variable is answered with ERROR");
         }
-        if (sel >= 0 && kind == CAT_CMD_TYPE_READ && W.cmd[sel].var_num == 0) {
+        if (sel >= 0 && kind == CAT_CMD_TYPE_READ && G_cmd[sel].var_num == 0) {
                 int expect = !(S.fl[sel] & F_ONLY_TEST) && (S.hm[sel] & H_READ);
                 /* the name must fit: "<name>=" + NUL within the command half */
                 if (S.nl[sel] + 1 < cmd_half_cap())
